@@ -254,7 +254,7 @@ def c10_run(inp):
     cls_name = inp["cls"]
     offset = inp.get("offset", 0)
     hc = dict(conj=False, xi_max=1.0, mpc_lim=0.0, mpd_lim=10.0, cov_max=1e9)
-    sc = dict(err_fn=0.01, err_xi=0.05, err_phi=0.03)
+    sc = dict(err_phi=0.03, err_fn=0.01, err_xi=0.05)       # a user's dict: keys in no particular order
     cases = []
     om = inp.get("ordmax") or 8
     omn = inp.get("ordmin")
@@ -734,7 +734,7 @@ def c04_preger(inp):
     for trial in range(24):
         S = int(rng.randint(2, 4))
         n_ref = int(rng.randint(1, 4))
-        nxseg = int(rng.choice([32, 64, 100]))
+        nxseg = int(rng.choice([32, 64, 100, 75, 33]))       # odd segment lengths too: the last grid line is then below fs / 2
         pov = float(rng.choice([0.0, 0.25, 0.5, 0.75]))
         method = ("per", "cor")[trial % 2]
         fs = float(rng.choice([1.0, 50.0]))
@@ -762,7 +762,9 @@ def c04_preger(inp):
         want = np.moveaxis(np.array(want), 0, 2)
         if Sy.shape != want.shape or not np.allclose(f, fr) or not np.allclose(Sy, want, rtol=1e-7, atol=1e-12):
             which = ""
-            if Sy.shape == want.shape:
+            if np.shape(f) != np.shape(fr) or not np.allclose(f, fr):
+                which = f"frequency vector differs from the estimator's grid (last line {np.asarray(f)[-1]:.6f} vs {fr[-1]:.6f})"
+            elif Sy.shape == want.shape:
                 d = np.argwhere(~np.isclose(Sy, want, rtol=1e-7, atol=1e-12))
                 which = f"first differing entry row {int(d[0][0])} (reference rows: 0..{n_ref - 1})"
             return {"reproduced": True, "detail": f"SD_PreGER differs from [mean reference block; transmissibility x mean] for method={method}, "
@@ -908,6 +910,20 @@ def c20_plots(inp):
                                          for k in range(min(n, len(lines))))
             if not ok:
                 return {"reproduced": True, "detail": f"CMIF_plot(nSv={nsv}): {len(lines)} curves for {n} requested, or a curve is not 10 log10(S_k/max S_1) over the whole grid"}
+            # a frequency window changes the visible range only: the 0 dB reference stays the maximum over the whole grid
+            pk = float(fr[int(np.argmax(Sv[0, 0, :]))])
+            for lim in ((float(fr[0]), float(fr[-1])), (pk + 0.3 * (fr[-1] - pk) + 1e-6, float(fr[-1])), (float(fr[0]), max(pk - 0.3 * (pk - fr[0]) - 1e-6, float(fr[0])))):
+                if lim[1] <= lim[0]:
+                    continue
+                try:
+                    fig, ax = plot.CMIF_plot(Sv.copy(), fr.copy(), freqlim=lim, nSv=nsv)
+                    lines = [ln.get_xydata() for ln in ax.get_lines()]
+                    plt.close(fig)
+                except Exception as e:      # noqa: BLE001
+                    return {"reproduced": True, "detail": f"CMIF_plot(nSv={nsv}, freqlim={lim}) raised {type(e).__name__}: {e}"}
+                if len(lines) != n or not all(np.allclose(lines[k][:, 1], 10 * np.log10(Sv[k, k, :] / Sv[0, 0, :].max())) for k in range(n)):
+                    return {"reproduced": True, "detail": f"CMIF_plot(nSv={nsv}, freqlim=({lim[0]:.3f}, {lim[1]:.3f})): curves are not in dB relative to the maximum of the first singular value "
+                                                          f"(peak at {pk:.3f} Hz{' outside' if not lim[0] <= pk <= lim[1] else ' inside'} the window)"}
     # the classes' plot methods
     Fn, Xi, Phi, _ = crafted_tables(6, 7, 2, 1)
     Lab = (rng.rand(6, 7) < 0.5).astype(int)
@@ -2221,7 +2237,111 @@ def c08_meta(inp):
     return {"reproduced": False, "detail": f"{ntr} data sets x 8 algorithm variants: pole tables and extracted modes covariant under gain (2^-34 .. 2^30 exact, 3.7e-6, 4.2e5), time unit (2^-5, 2^6) and a channel permutation; shapes unit-normalised"}
 
 
-DRIVERS = {"c08_meta": c08_meta, "c17_factor": c17_factor, "c17_fd": c17_fd, "c03_exact": c03_exact, "c05_exact": c05_exact, "c01_exact": c01_exact, "c01_modal": c01_modal, "c19_geo": c19_geo, "c15_gating": c15_gating, "c15_poser": c15_poser, "c11_plscf_findmin": c11_plscf_findmin, "c11_mpe": c11_mpe, "c06_fdd": c06_fdd, "c20_plots": c20_plots, "c18_indicators": c18_indicators, "c13_sdest": c13_sdest, "c04_preger": c04_preger, "c03_split": c03_split, "c14_sequences": c14_sequences, "c16_dialog": c16_dialog, "c02_merge": c02_merge, "c09_run": c09_run, "c10_run": c10_run, "c10_fn": c10_fn}
+
+# ----------------------------------------------------------------------------------
+# C16 hand-over: what the mpe_from_plot methods pass from the dialog to the extraction routine (spy on the real call)
+# ----------------------------------------------------------------------------------
+
+def c16_handover(inp):
+    import pyoma2.algorithms.fdd as afdd
+    import pyoma2.algorithms.plscf as aplscf
+    import pyoma2.algorithms.ssi as assi
+    from pyoma2.algorithms.data.result import FDDResult, pLSCFResult, SSIResult
+    rng = np.random.RandomState(int(inp.get("seed", 16)))
+
+    class FakeDialog:
+        next_result = None
+
+        def __init__(self, *a, **k):
+            self.result = FakeDialog.next_result
+    for trial in range(40):
+        n = int(rng.randint(1, 6))
+        freqs = sorted(rng.uniform(1, 20, n).round(3).tolist())
+        orders = [int(x) for x in rng.randint(1, 30, n)]
+        if n >= 2 and trial % 2 == 0:          # the same pole picked twice, other picks at other orders
+            j = int(rng.randint(0, n - 1))
+            freqs[j + 1], orders[j + 1] = freqs[j], orders[j]
+            order_idx = np.argsort(freqs, kind="stable")
+            freqs, orders = [freqs[i] for i in order_idx], [orders[i] for i in order_idx]
+        for name, mod, clsname, fn_name, res in (("SSIcov", assi, "SSIcov", "SSI_mpe", SSIResult), ("pLSCF", aplscf, "pLSCF", "pLSCF_mpe", pLSCFResult)):
+            seen = {}
+            kern = getattr(mod, "ssi" if name == "SSIcov" else "plscf")
+            real_mpe, real_dlg = getattr(kern, fn_name), mod.SelFromPlot
+
+            def spy(*a, **k):
+                seen["a"], seen["k"] = a, k
+                raise RuntimeError("stop")
+            setattr(kern, fn_name, spy)
+            mod.SelFromPlot = FakeDialog
+            FakeDialog.next_result = (list(freqs), list(orders))
+            try:
+                alg = getattr(mod, clsname)(name="a", br=4, ordmax=30) if name == "SSIcov" else getattr(mod, clsname)(name="a", ordmax=30)
+                alg.result = res(Fn_poles=np.zeros((2, 2)), Xi_poles=np.zeros((2, 2)), Phi_poles=np.zeros((2, 2, 1)), Lab=np.zeros((2, 2)))
+                alg.fs, alg.dt, alg.data = 10.0, 0.1, np.zeros((10, 1))
+                try:
+                    alg.mpe_from_plot(freqlim=(0, 5), rtol=0.05)
+                except RuntimeError:
+                    pass
+            finally:
+                setattr(kern, fn_name, real_mpe)
+                mod.SelFromPlot = real_dlg
+            if not seen:
+                return {"reproduced": True, "detail": f"{name}.mpe_from_plot never reached the extraction routine"}
+            got_f = list(seen["a"][0]) if seen["a"] else list(seen["k"].get("sel_freq", seen["k"].get("freq_ref", [])))
+            got_o = seen["a"][4] if len(seen["a"]) > 4 else seen["k"].get("order")
+            if got_f != list(freqs) or list(got_o) != list(orders):
+                return {"reproduced": True, "detail": f"{name}.mpe_from_plot: the dialog handed over frequencies {freqs} with orders {orders}, the extraction routine received {got_f} with {list(got_o)}"}
+    return {"reproduced": False, "detail": "mpe_from_plot passes the dialog's frequencies and per-mode orders unchanged and paired (SSI, pLSCF; duplicates included)"}
+
+
+def c02_results(inp):
+    """PoSER merge_results with two algorithms per setup registered under names in arbitrary (non-alphabetical) order"""
+    from pyoma2.algorithms import FSDD, SSIcov
+    from pyoma2.algorithms.data.result import EFDDResult, SSIResult
+    from pyoma2.setup import MultiSetup_PoSER, SingleSetup
+    rng = np.random.RandomState(int(inp.get("seed", 2)))
+    for trial in range(30):
+        S_ = int(rng.randint(2, 4))
+        nref, nm = int(rng.randint(1, 3)), [int(rng.randint(1, 4)), int(rng.randint(1, 4))]
+        nrov = [int(rng.randint(1, 4)) for _ in range(S_)]
+        ntot = nref + sum(nrov)
+        G = [rng.randn(ntot, nm[0]), rng.randn(ntot, nm[1])]
+        fn0 = [np.sort(rng.uniform(1, 20, nm[0])), np.sort(rng.uniform(1, 20, nm[1]))]
+        setups, off = [], nref
+        names_per_setup = [rng.permutation(["zeta", "Alpha"]).tolist() if trial % 2 else ["zeta", "Alpha"] for _ in range(S_)]
+        fn_all, xi_all = [[], []], [[], []]
+        for s_ in range(S_):
+            rows = list(range(nref)) + list(range(off, off + nrov[s_]))
+            off += nrov[s_]
+            st = SingleSetup(np.zeros((50, len(rows))), 10.0)
+            a0 = SSIcov(name=names_per_setup[s_][0] + str(s_), br=3, ordmax=6)       # position 0: always the SSIcov system
+            a1 = FSDD(name=names_per_setup[s_][1] + str(s_), nxseg=16)               # position 1: always the FSDD system
+            for k, (a, R) in enumerate(((a0, SSIResult), (a1, EFDDResult))):
+                fn = fn0[k] * (1 + 0.01 * rng.randn(nm[k]))
+                xi = 0.02 * (1 + 0.1 * rng.randn(nm[k]))
+                a.result = R()
+                a.result.Fn, a.result.Xi, a.result.Phi = fn, xi, G[k][rows, :] * rng.choice([-2.0, 0.5, 3.0])
+                fn_all[k].append(fn)
+                xi_all[k].append(xi)
+            st.add_algorithms(a0, a1)
+            setups.append(st)
+        try:
+            ms = MultiSetup_PoSER(ref_ind=[list(range(nref))] * S_, single_setups=setups, names=["first", "second"])
+            out = ms.merge_results()
+        except Exception as e:      # noqa: BLE001
+            return {"reproduced": True, "detail": f"merge_results raised {type(e).__name__}: {e} (names per setup {names_per_setup})"}
+        for k, key in enumerate(("first", "second")):
+            r = out[key]
+            if np.shape(r.Fn) != (nm[k],) or not np.allclose(r.Fn, np.mean(fn_all[k], axis=0)) or not np.allclose(r.Xi, np.mean(xi_all[k], axis=0)) \
+                    or not np.allclose(r.Fn_cov, np.std(fn_all[k], axis=0) / np.mean(fn_all[k], axis=0)):
+                return {"reproduced": True, "detail": f"merge_results: group '{key}' (algorithms at position {k} of every setup) does not hold the mean / population std-over-mean of that position's "
+                                                      f"results (algorithm names per setup: {names_per_setup})"}
+            if r.Phi.shape != (ntot, nm[k]) or any(abs(_mac1(r.Phi[:, m_], G[k][:, m_]) - 1) > 1e-8 for m_ in range(nm[k])):
+                return {"reproduced": True, "detail": f"merge_results: group '{key}' merged shape is not the global shape of the algorithms at position {k} (names per setup: {names_per_setup})"}
+    return {"reproduced": False, "detail": "merge_results groups by position whatever the algorithms are called; means, std/mean and merged shapes per group agree on 30 layouts"}
+
+
+DRIVERS = {"c16_handover": c16_handover, "c02_results": c02_results, "c08_meta": c08_meta, "c17_factor": c17_factor, "c17_fd": c17_fd, "c03_exact": c03_exact, "c05_exact": c05_exact, "c01_exact": c01_exact, "c01_modal": c01_modal, "c19_geo": c19_geo, "c15_gating": c15_gating, "c15_poser": c15_poser, "c11_plscf_findmin": c11_plscf_findmin, "c11_mpe": c11_mpe, "c06_fdd": c06_fdd, "c20_plots": c20_plots, "c18_indicators": c18_indicators, "c13_sdest": c13_sdest, "c04_preger": c04_preger, "c03_split": c03_split, "c14_sequences": c14_sequences, "c16_dialog": c16_dialog, "c02_merge": c02_merge, "c09_run": c09_run, "c10_run": c10_run, "c10_fn": c10_fn}
 
 
 def main():
